@@ -839,7 +839,73 @@ def t9_neuron_shapes():
 
 
 
-ITEMS = {"T1": t1_fields, "T2": t2_whitelist, "T3": t3_file_modes, "T4": t4_conv_axis, "T5": t5_flatten, "T6": t6_lif, "T7": t7_cuba, "T8": t8_unique_name, "T9": t9_neuron_shapes}
+# ---------------------------------------------------------------------------------------
+# T10  constructor guards: minimal weight rank of Affine / Linear, padding-string whitelist of Conv1d / Conv2d
+# ---------------------------------------------------------------------------------------
+def t10_guards():
+    item = "T10"
+    lin = ast.parse(_src("nir/ir/linear.py"))
+    ranks = []
+    for cls in ("Affine", "Linear"):
+        fn = _find_func(lin, "__post_init__", cls)
+        if fn is None:
+            raise Refusal(item, f"{cls}.__post_init__ not found")
+        body = [st for st in fn.body if not (isinstance(st, ast.Expr) and isinstance(st.value, ast.Constant))]
+        t = body[0].test if body and isinstance(body[0], ast.Assert) else None
+        ok = isinstance(t, ast.Compare) and len(t.ops) == 1 and isinstance(t.ops[0], (ast.GtE, ast.Gt)) \
+            and ast.dump(t.left) == "Call(func=Name(id='len', ctx=Load()), args=[Attribute(value=Attribute(value=Name(id='self', " \
+                                    "ctx=Load()), attr='weight', ctx=Load()), attr='shape', ctx=Load())], keywords=[])" \
+            and isinstance(t.comparators[0], ast.Constant) and isinstance(t.comparators[0].value, int)
+        if not ok:
+            raise Refusal(item, f"{cls}: the first statement is not `assert len(self.weight.shape) >= <int>`")
+        k = t.comparators[0].value + (1 if isinstance(t.ops[0], ast.Gt) else 0)
+        ranks.append((cls, k))
+    conv = ast.parse(_src("nir/ir/conv.py"))
+    wl, tys = [], []
+    for cls in ("Conv1d", "Conv2d"):
+        fn = _find_func(conv, "__post_init__", cls)
+        if fn is None:
+            raise Refusal(item, f"{cls}.__post_init__ not found")
+        body = [st for st in fn.body if not (isinstance(st, ast.Expr) and isinstance(st.value, ast.Constant))]
+        st = body[0] if body else None
+        if not (isinstance(st, ast.If) and not st.orelse and len(st.body) == 1 and isinstance(st.body[0], ast.Raise)):
+            raise Refusal(item, f"{cls}: __post_init__ does not begin with the padding guard `if …: raise …`")
+        exc = st.body[0].exc
+        if not (isinstance(exc, ast.Call) and isinstance(exc.func, ast.Name) and exc.func.id == "ValueError"):
+            raise Refusal(item, f"{cls}: the padding guard does not raise ValueError")
+        t = st.test
+        if not (isinstance(t, ast.BoolOp) and isinstance(t.op, ast.And) and len(t.values) == 2):
+            raise Refusal(item, f"{cls}: padding guard is not `isinstance(self.padding, …) and self.padding not in […]`")
+        a, b = t.values
+        pad = "Attribute(value=Name(id='self', ctx=Load()), attr='padding', ctx=Load())"
+        if not (isinstance(a, ast.Call) and isinstance(a.func, ast.Name) and a.func.id == "isinstance" and len(a.args) == 2
+                and ast.dump(a.args[0]) == pad):
+            raise Refusal(item, f"{cls}: padding guard does not test isinstance(self.padding, …)")
+        tt = a.args[1]
+        names = [e.id for e in tt.elts] if isinstance(tt, ast.Tuple) and all(isinstance(e, ast.Name) for e in tt.elts) else \
+            ([tt.id] if isinstance(tt, ast.Name) else None)
+        if names is None:
+            raise Refusal(item, f"{cls}: the types of the padding guard are not plain names")
+        if not (isinstance(b, ast.Compare) and len(b.ops) == 1 and isinstance(b.ops[0], ast.NotIn) and ast.dump(b.left) == pad
+                and isinstance(b.comparators[0], (ast.List, ast.Tuple, ast.Set))
+                and all(isinstance(e, ast.Constant) and isinstance(e.value, str) for e in b.comparators[0].elts)):
+            raise Refusal(item, f"{cls}: padding guard does not test `self.padding not in [<string literals>]`")
+        wl.append((cls, [e.value for e in b.comparators[0].elts]))
+        tys.append((cls, names))
+    lst = lambda xs: "[" + ", ".join(lean_str(x) for x in xs) + "]"
+    txt = HEADER + "\nnamespace NirVerif.Generated\n\n" \
+        "/-- `assert len(self.weight.shape) >= k` at the top of `Affine` / `Linear.__post_init__` -/\n" \
+        "def minWeightRank : List (String × Nat) := [" + ", ".join(f"({lean_str(c)}, {k})" for c, k in ranks) + "]\n\n" \
+        "/-- the padding guard at the top of `Conv1d` / `Conv2d.__post_init__`: `isinstance(self.padding, <types>) and\n" \
+        "self.padding not in <whitelist>` raises ValueError -/\n" \
+        "def paddingWhitelist : List (String × List String) := [" + ", ".join(f"({lean_str(c)}, {lst(w)})" for c, w in wl) + "]\n" \
+        "def paddingGuardTypes : List (String × List String) := [" + ", ".join(f"({lean_str(c)}, {lst(w)})" for c, w in tys) + "]\n\n" \
+        "end NirVerif.Generated\n"
+    return {"Guards.lean": txt}
+
+
+
+ITEMS = {"T1": t1_fields, "T2": t2_whitelist, "T3": t3_file_modes, "T4": t4_conv_axis, "T5": t5_flatten, "T6": t6_lif, "T7": t7_cuba, "T8": t8_unique_name, "T9": t9_neuron_shapes, "T10": t10_guards}
 
 
 def regenerate(out_dir=OUT, items=None):
